@@ -160,12 +160,12 @@ Proof.
 Qed.
 
 Lemma ctl_other P l a s' w0 : (forall b, a <> LBase b) -> actor a <> Some w0 ->
-  (forall k, a <> LAnonWake k) -> (forall k, a <> LAnonPre k) ->
+  (forall k, a <> LAnonWake k) -> (forall k, a <> LAnonPre k) -> (forall k, a <> LSpurWake k) ->
   wpc (ctl P l a s') w0 = wpc l w0 /\ evfd (ctl P l a s') w0 = evfd l w0 /\
   owed (ctl P l a s') w0 = owed l w0 /\ anon (ctl P l a s') w0 = anon l w0.
 Proof.
-  intros NB NA N1 N2. destruct a; cbn [actor] in NA; try (exfalso; eapply NB; reflexivity);
-    try (exfalso; eapply N1; reflexivity); try (exfalso; eapply N2; reflexivity);
+  intros NB NA N1 N2 N3. destruct a; cbn [actor] in NA; try (exfalso; eapply NB; reflexivity);
+    try (exfalso; eapply N1; reflexivity); try (exfalso; eapply N2; reflexivity); try (exfalso; eapply N3; reflexivity);
     unfold ctl; dmatch; unfold grabbed, taken; dmatch; lsimp; rewrite ?upd_neq by congruence; repeat split; reflexivity.
 Qed.
 
@@ -189,12 +189,13 @@ Lemma jinv_step P l a l' : push_first P = true -> JInv P l -> lstep P l a = Some
 Proof.
   intros PF J H.
   assert (OTH : (forall b, a <> LBase b) -> (forall k, a <> LAnonWake k) -> (forall k, a <> LAnonPre k) ->
+                (forall k, a <> LSpurWake k) ->
                 forall w0, actor a <> Some w0 -> gq (base l') w0 <> [] -> wake_coming P l' w0).
-  { intros NB N1 N2 w0 NA NE. destruct (lstep_gq _ _ _ _ H NB w0) as [A|[-> _]]; [|cbn in NA; congruence].
+  { intros NB N1 N2 N3 w0 NA NE. destruct (lstep_gq _ _ _ _ H NB w0) as [A|[-> _]]; [|cbn in NA; congruence].
     rewrite A in NE. specialize (J w0 NE). unfold lstep in H. destruct (guard P l a); [|discriminate].
     assert (exists s', l' = ctl P l a s') as [s' ->].
     { destruct (proj l a); [destruct (step (base l) a0); [|discriminate]|]; inversion H; eauto. }
-    destruct (ctl_other P l a s' w0 NB NA N1 N2) as (A1 & A2 & A3 & A4).
+    destruct (ctl_other P l a s' w0 NB NA N1 N2 N3) as (A1 & A2 & A3 & A4).
     eapply wc_frame; eauto. now rewrite A1. }
   assert (ACT : forall w, actor a = Some w -> gq (base l') w <> [] -> wake_coming P l' w).
   { intros w A NE.
@@ -223,6 +224,8 @@ Proof.
   - (* LAnonWake *) linv H. inversion H; subst; clear H. unfold ctl, wake_coming in *. lsimp. unfold set_evfd. lsimp.
     destruct (Nat.eq_dec w0 k) as [->|N]; [left; apply upd_eq|]. unfold dec. rewrite !upd_neq by exact N. apply J, NE.
   - linv H. rewrite PF in G1. discriminate G1.
+  - (* LSpurWake *) linv H. inversion H; subst; clear H. unfold ctl, wake_coming in *. lsimp. unfold set_evfd. lsimp.
+    destruct (Nat.eq_dec w0 k) as [->|N]; [left; apply upd_eq|]. rewrite !upd_neq by exact N. apply J, NE.
   - linv H. inversion H; subst; clear H. unfold ctl, wake_coming in *. lsimp. apply J, NE.
 Qed.
 
